@@ -121,4 +121,49 @@ pub fn run(ctx: &Ctx) {
             },
         ));
     }
+    // suffix-length sweep: the same message followed by EVERY number of trailing bytes 0..=N
+    {
+        let nmax = ctx.tier.pick(140_000usize, 530_000usize);
+        let msgs: Vec<RefMsg> = {
+            let seeds = seed_messages(Tier::Quick);
+            let mut v: Vec<RefMsg> = vec![seeds[0].clone(), seeds[seeds.len() / 2].clone(), seeds[seeds.len() - 3].clone()];
+            let mut st = seeds[5].clone();
+            st.storage = Some(storage(1, 2, "ST"));
+            v.push(st);
+            v.push(len_sweep_message(4, 300, false));
+            v.push(len_sweep_message(0, 5000, true));
+            v
+        };
+        let enc: Vec<(Vec<u8>, dlt_core::dlt::Message, bool)> = msgs
+            .iter()
+            .map(|m| {
+                let cm = to_crate(m);
+                let mut b = cm.as_bytes();
+                let l = b.len();
+                b.extend((0..nmax + 8).map(|k| if k % 7 == 3 { 0u8 } else { (k * 31 + l) as u8 }));
+                (b, cm, m.storage.is_some())
+            })
+            .collect();
+        let lens: Vec<usize> = msgs.iter().map(|m| to_crate(m).as_bytes().len()).collect();
+        let sp = Space::new(&[nmax + 1, enc.len()]);
+        let s2 = sp.clone();
+        let (enc, lens) = (&enc, &lens);
+        ctx.run_family(Family::new("c01.suffix_length_sweep", sp.size(), format!("{} messages (verbose, non-verbose, stored, 300-byte and 5000-byte) each followed by EVERY number of trailing bytes 0..={} (shared buffer; the total buffer length crosses every multiple of 64 KiB)", enc.len(), nmax), move |i, loc| {
+            let c = s2.coords(i);
+            let (buf, cm, st) = &enc[c[1]];
+            let ml = lens[c[1]];
+            let input = &buf[..ml + c[0]];
+            loc.evals += 1;
+            loc.transitions += 1;
+            loc.traces += 1;
+            loc.state(i, c[0] > 0);
+            match catch(|| dlt_message(input, None, *st).map(|(rest, pm)| (rest.len(), rest.as_ptr() as usize, pm))) {
+                Ok(Ok((rl, rp, ParsedMessage::Item(back)))) if rl == c[0] && rp == input.as_ptr() as usize + ml && same_message(&back, cm) => loc.outcome("identical"),
+                other => {
+                    loc.outcome("suffix changes the result");
+                    loc.violation("trailing bytes influence the result", format!("message {} followed by {} trailing bytes (buffer of {} bytes): {:?}", hex_short(&buf[..ml]), c[0], input.len(), other.map(|r| r.map(|(n, _, pm)| (n, format!("{:?}", pm).chars().take(80).collect::<String>())))), json!({"message_hex": hex_short(&buf[..ml]), "suffix_len": c[0]}));
+                }
+            }
+        }).distinct());
+    }
 }
